@@ -197,7 +197,21 @@ fn read_at(buf: &[u8], pos: usize, depth: usize) -> Result<Item, ReadError> {
                         if m2 != major {
                             return Err(ReadError::Malformed("chunk of wrong type"));
                         }
-                        let n = arg2.ok_or(ReadError::Malformed("nested indefinite string"))?;
+                        let n = match arg2 {
+                            Some(n) => n,
+                            None => {
+                                // a chunk that is itself an indefinite-length string: not
+                                // well-formed (RFC 8949 3.2.3), but a CBOR layer that simply
+                                // concatenates chunks accepts it, and the harness must be able to
+                                // read whatever coset accepts
+                                let inner = read_at(buf, p, depth + 1)?;
+                                if let Kind::Bytes(d) | Kind::Text(d) = &inner.kind {
+                                    data.extend_from_slice(d);
+                                }
+                                p = inner.end;
+                                continue;
+                            }
+                        };
                         let n = usize::try_from(n).map_err(|_| ReadError::Eof)?;
                         p += hl2;
                         if n > buf.len() - p {
@@ -886,7 +900,8 @@ mod tests {
         assert_eq!(read_item(&[0x18]), Err(ReadError::Eof));
         assert!(read_item(&[0x1c]).is_err());
         assert!(read_item(&[0xff]).is_err());
-        assert!(read_item(&[0x7f, 0x7f, 0x61, 0x61, 0xff, 0xff]).is_err());
+        assert!(read_item(&[0x7f, 0x7f, 0x61, 0x61, 0xff, 0xff]).is_ok());
+        assert!(read_item(&[0x7f, 0x5f, 0x41, 0x61, 0xff, 0xff]).is_err());
         assert!(read_exact(&[0x00, 0x00]).is_err());
     }
 }
